@@ -30,7 +30,7 @@
  *        m     insert the chain again (lyd_insert_child / lyd_insert_sibling of its first node -> lyd_move_nodes -> lyds_merge)
  *   sib  <place> <ops>                  ALL children of one parent (place c: container k of module s2, t: top level of s2):
  *        leaves l1..l6, system-ordered leaf-list sl, user-ordered list ul and leaf-list uu, opaque nodes; schema order
- *        l1 l2 sl l3 ul uu l4 l5 l6 (schema index 0..8)
+ *        l1 l2 sl l3 ul uu l4 l5 l6 (schema index 0..8; l3 ul uu are defined inside a choice / case, the others follow it)
  *        L<n> create leaf l<n>   S<k> sl instance   U<k> ul instance   V<k> uu instance   O<c> opaque node named c (x y z)
  *        A<i>.<j> lyd_insert_after(sibling at position j, node at position i)   B<i>.<j> lyd_insert_before
  *        X<i> lyd_free_tree of the sibling at position i   Y<i> lyd_unlink_tree -> pool   R<j> insert pool node j again
@@ -81,9 +81,11 @@ static const char *MODULE =
 #define SIBBODY \
         " leaf l1 {type string;} leaf l2 {type string;}" \
         " leaf-list sl {type int8;}" \
+        " choice ch {case ca {" \
         " leaf l3 {type string;}" \
         " list ul {key k; ordered-by user; leaf k {type int8;}}" \
         " leaf-list uu {type int8; ordered-by user;}" \
+        " }}" \
         " leaf l4 {type string;} leaf l5 {type string;} leaf l6 {type string;}"
 static const char *MODULE2 =
         "module s2 {namespace \"urn:s2\"; prefix s2; yang-version 1.1;"
